@@ -24,6 +24,33 @@ def _big_stack():
         pass
 
 
+def _iface_ids():
+    import universe
+    return {t["id"] for t in universe.TYPES if t["kind"] == "iface"}
+
+
+_IFACE = None
+
+
+def canon_zero(j):
+    """a nil interface value has no dynamic type: the executor prints it under the static type of the position it was read
+    from, the model under the type it was produced as (they differ when an interface-typed result is provided As another
+    interface) -- both become {"zero":"iface"}; slices are sorted again afterwards"""
+    global _IFACE
+    if _IFACE is None:
+        _IFACE = _iface_ids()
+    if isinstance(j, dict):
+        if len(j) == 1 and "zero" in j and j["zero"] in _IFACE:
+            return {"zero": "iface"}
+        out = {k: canon_zero(v) for k, v in j.items()}
+        if len(out) == 1 and isinstance(out.get("sl"), list):
+            out["sl"] = sorted(out["sl"], key=lambda x: json.dumps(x, separators=(",", ":"), sort_keys=True))
+        return out
+    if isinstance(j, list):
+        return [canon_zero(x) for x in j]
+    return j
+
+
 class Proc:
     def __init__(self, argv):
         self.argv = argv
@@ -45,7 +72,7 @@ class Proc:
         if not out:
             self.close()
             return {"ops": [], "fatal": "crash"}
-        return json.loads(out)
+        return canon_zero(json.loads(out))
 
     def close(self):
         if self.p is not None:
